@@ -676,7 +676,10 @@ pub fn worker_main(cfg: EngineConfig) -> ! {
                             // thorough: every k=1 case of table/file/static seeds; otherwise the first case of
                             // each new outcome class within the unit
                             let every = b.purity_every_case && seed.class != "zero" && matches!(unit.kind, UnitKind::K1 { lo, .. } if lo < 4096);
-                            if cfg.mode == Mode::C01 && (every || fresh) {
+                            // enumerating synth drivers (pos_limit == 0: sparse-bit-set family incl. the ~1 s giants)
+                            // are not re-walked: four executions of a giant would exceed the watchdog on a busy machine
+                            let enumerating = seed.class == "synth" && seed.pos_limit == 0;
+                            if cfg.mode == Mode::C01 && (every || fresh) && !enumerating {
                                 purity_n += 1;
                                 if let Some((k, id, what)) = purity(unit.seed, seed, &buf, o.digest, &cfg, &b, &helper) {
                                     let v = json!({"kind": k, "identity": id, "what": what, "unit": ui, "case": no});
@@ -718,7 +721,7 @@ pub fn worker_main(cfg: EngineConfig) -> ! {
                 match run_case(seed, &buf, &cfg, &b, &mut ignored) {
                     Ok(o) => {
                         let mut found = None;
-                        if cfg.mode == Mode::C01 {
+                        if cfg.mode == Mode::C01 && !(seed.class == "synth" && seed.pos_limit == 0) {
                             found = purity(si, seed, &buf, o.digest, &cfg, &b, &helper);
                         }
                         match found {
